@@ -125,6 +125,7 @@ def allL (r : Reader) (data : Bytes) : List Result :=
 def readAllL (data : Bytes) : List Result := allL lx {} data
 
 def indexFileL (u : Upload) (i : Nat) (user : Bytes) (f : FileIn) : Option Upload :=
+  if tooLong f.content then none else
   let lbls := metaLabels u.id i user f.name
   let results := allL lx (Reader.addLabels {} lbls) f.content
   if results.isEmpty then none else some (results.foldl Upload.insertRecord u)
